@@ -30,10 +30,11 @@ VARIABLES
     ent,      \* [Slots -> [port, ref]]  Tcp::sockets entries owned by a stream handle (ref 0 = none)
     leaked,   \* set of local ports of entries no handle refers to any more (D12)
     names,    \* Dns::names in registration order (sequence of names)
+    anyl,     \* slots of listeners bound to the wildcard address (a remote peer reaches only those)
     nops, nin,
     last
 
-ivars == <<cursor, udpB, tcpB, ent, leaked, names, nops, nin>>
+ivars == <<cursor, udpB, tcpB, ent, leaked, names, anyl, nops, nin>>
 vars  == <<ppvars, ivars, last>>
 
 NoEnt == [port |-> 0, ref |-> 0]
@@ -44,7 +45,7 @@ Init ==
     /\ udpB = {} /\ tcpB = {}
     /\ ent = [s \in Slots |-> NoEnt]
     /\ leaked = {}
-    /\ names = <<>>
+    /\ names = <<>> /\ anyl = {}
     /\ nops = 0 /\ nin = 0
     /\ last = [a |-> "init"]
 
@@ -83,7 +84,7 @@ BindUdp(s, p, kind) ==
             /\ P_Bind("udp", s, p, IF p \in udpB THEN AddrInUse ELSE p)
             /\ Step([a |-> "bind", proto |-> "udp", kind |-> kind, s |-> s, p |-> p,
                      res |-> IF p \in udpB THEN AddrInUse ELSE p])
-    /\ UNCHANGED <<tcpB, ent, leaked, names, nin>>
+    /\ UNCHANGED <<tcpB, ent, leaked, names, nin, anyl>>
 
 BindTcp(s, p, kind) ==
     /\ "bind_tcp" \in Ops /\ nops < MaxOps /\ FreeSlot(s) /\ kind \in BindKindsP
@@ -99,6 +100,7 @@ BindTcp(s, p, kind) ==
             /\ P_Bind("tcp", s, p, IF p \in tcpB THEN AddrInUse ELSE p)
             /\ Step([a |-> "bind", proto |-> "tcp", kind |-> kind, s |-> s, p |-> p,
                      res |-> IF p \in tcpB THEN AddrInUse ELSE p])
+    /\ anyl' = IF kind = "any" /\ last'.res > 0 THEN anyl \cup {s} ELSE anyl
     /\ UNCHANGED <<udpB, ent, leaked, names, nin>>
 
 \* TcpStream::connect.  how = "ok" (a listener accepts), "refused" (nobody listens),
@@ -122,17 +124,17 @@ Connect(s, how) ==
                /\ leaked' = IF LeakOnFail THEN leaked \cup {a.port} ELSE leaked
                /\ P_Connect(s, Failed)
                /\ Step([a |-> "connect", s |-> s, how |-> how, res |-> Failed])
-    /\ UNCHANGED <<udpB, tcpB, names, nin>>
+    /\ UNCHANGED <<udpB, tcpB, names, nin, anyl>>
 
 \* TcpListener::accept on listener slot l: the new entry's local port is the listener's
 AcceptIn(s, l) ==
     /\ "accept" \in Ops /\ nops < MaxOps /\ nin < MaxIn /\ FreeSlot(s)
-    /\ socks[l].kind = "lst"
+    /\ socks[l].kind = "lst" /\ l \in anyl
     /\ ent' = [ent EXCEPT ![s] = [port |-> socks[l].port, ref |-> 2]]
     /\ P_Accept(s, l, socks[l].port)
     /\ nin' = nin + 1
     /\ Step([a |-> "accept", s |-> s, l |-> l, res |-> socks[l].port])
-    /\ UNCHANGED <<cursor, udpB, tcpB, leaked, names>>
+    /\ UNCHANGED <<cursor, udpB, tcpB, leaked, names, anyl>>
 
 \* drop of a UdpSocket / TcpListener / whole TcpStream (both halves, nothing unread)
 Drop(s) ==
@@ -141,6 +143,7 @@ Drop(s) ==
     /\ tcpB' = IF socks[s].kind = "lst" THEN tcpB \ {socks[s].port} ELSE tcpB
     /\ ent'  = IF socks[s].kind \in {"out", "in"} THEN [ent EXCEPT ![s] = NoEnt] ELSE ent
     /\ P_Drop(s)
+    /\ anyl' = anyl \ {s}
     /\ Step([a |-> "drop", s |-> s])
     /\ UNCHANGED <<cursor, leaked, names, nin>>
 
@@ -152,7 +155,7 @@ DropHalf(s, h) ==
     /\ ent' = [ent EXCEPT ![s] = IF @.ref = 1 THEN NoEnt ELSE [@ EXCEPT !.ref = @ - 1]]
     /\ P_DropHalf(s, h)
     /\ Step([a |-> "drop_half", s |-> s, h |-> h])
-    /\ UNCHANGED <<cursor, udpB, tcpB, leaked, names, nin>>
+    /\ UNCHANGED <<cursor, udpB, tcpB, leaked, names, nin, anyl>>
 
 \* Sim::crash + Sim::bounce: every socket of the host is dropped; the host object
 \* (cursor, tables) survives
@@ -162,6 +165,7 @@ Crash ==
     /\ udpB' = {} /\ tcpB' = {}
     /\ ent' = [s \in Slots |-> NoEnt]
     /\ P_Crash
+    /\ anyl' = {}
     /\ Step([a |-> "crash"])
     /\ UNCHANGED <<cursor, leaked, names, nin>>
 
@@ -176,21 +180,21 @@ Lookup(n) ==
     /\ names' = IF Known(n) THEN names ELSE Append(names, n)
     /\ P_Lookup(n, AddrOfName(n))
     /\ Step([a |-> "lookup", n |-> n, res |-> AddrOfName(n)])
-    /\ UNCHANGED <<cursor, udpB, tcpB, ent, leaked, nin>>
+    /\ UNCHANGED <<cursor, udpB, tcpB, ent, leaked, nin, anyl>>
 
 \* reverse lookup of subnet offset k (registered or not)
 Reverse(k) ==
     /\ "reverse" \in Ops /\ nops < MaxOps
     /\ P_Reverse(k, IF k \in 1..Len(names) THEN names[k] ELSE 0)
     /\ Step([a |-> "reverse", k |-> k, res |-> IF k \in 1..Len(names) THEN names[k] ELSE 0])
-    /\ UNCHANGED <<cursor, udpB, tcpB, ent, leaked, names, nin>>
+    /\ UNCHANGED <<cursor, udpB, tcpB, ent, leaked, names, nin, anyl>>
 
 \* lookup of a literal address (inside or outside the subnet): passes through
 Literal(k) ==
     /\ "literal" \in Ops /\ nops < MaxOps
     /\ P_Literal(TRUE)
     /\ Step([a |-> "literal", k |-> k])
-    /\ UNCHANGED <<cursor, udpB, tcpB, ent, leaked, names, nin>>
+    /\ UNCHANGED <<cursor, udpB, tcpB, ent, leaked, names, nin, anyl>>
 
 \* lookup_many(regex): registered names that match, in registration order
 RegexRes(m) == LET ks == SelectSeq([k \in 1..Len(names) |-> k], LAMBDA k : names[k] \in m) IN ks
@@ -198,7 +202,7 @@ Regex(m) ==
     /\ "regex" \in Ops /\ nops < MaxOps
     /\ P_Regex(m, RegexRes(m))
     /\ Step([a |-> "regex", m |-> m, res |-> RegexRes(m)])
-    /\ UNCHANGED <<cursor, udpB, tcpB, ent, leaked, names, nin>>
+    /\ UNCHANGED <<cursor, udpB, tcpB, ent, leaked, names, nin, anyl>>
 
 ---------------------------------------------------------------------------
 Next ==
